@@ -386,6 +386,14 @@ fn generate(name: &str, text: &str) -> String {
         let k = match r.ty { RuleType::Normal => 0, RuleType::Silent => 1, RuleType::Atomic => 2, RuleType::CompoundAtomic => 3, RuleType::NonAtomic => 4 };
         format!(", {}", if skip && k != 1 { 2 } else if skip { 5 } else { k })
     }).collect::<String>()).unwrap();
+    // rule id -> "does the rule match at pos" (C10 truthfulness; context-free grammars only)
+    if !compile_only {
+        writeln!(o, "pub fn ref_matches(id: u8, c: crate::refpeg::Ctx<'_>, pos: usize) -> bool {{\n    use crate::refpeg::{{RefNode, RefState}};\n    match id {{\n        0 => pos == c.end,").unwrap();
+        for r in rules.iter() {
+            writeln!(o, "        {} => <reference::r_{}<1> as RefNode>::eval(c, RefState::new(pos)).is_some(),", ids[&r.name], r.name).unwrap();
+        }
+        writeln!(o, "        _ => false,\n    }}\n}}").unwrap();
+    }
     // ---- entries
     let entries: Vec<&Rule> = rules
         .iter()
@@ -448,10 +456,12 @@ fn generate(name: &str, text: &str) -> String {
                         "c02" => ("g_tokens", "parse; Pair token tree (rule, start, end, depth) == reference tree (pest's minus pruning under @/$)"),
                         "c15" => ("g_children", "children() / as_token() / thin tokens == reference tree"),
                         "c04" => ("g_full", "try_parse_with / try_check_with Ok <=> reference: prefix, trailing skip unless atomic, end of input"),
+                        "c10" => ("g_truth", "full check rejected => error location in range and not before the matched prefix; every expected rule fails there, every unexpected rule matches there (real tracker, map cut)"),
                         other => panic!("unknown kind {}", other),
                     };
                     let extra = match kk.as_str() {
                         "c02" | "c15" => format!(", rid_{}", v),
+                        "c10" => format!(", rid_{}, ref_matches", v),
                         "c04" => format!(", {}", matches!(r.ty, RuleType::Atomic | RuleType::CompoundAtomic)),
                         _ => String::new(),
                     };
@@ -467,7 +477,7 @@ fn generate(name: &str, text: &str) -> String {
                         uw = unwind, h = hname, tier = t, g = name, r = r.name, vdesc = vdesc, what = what, n = n,
                         alpha = format!("{:?}", cfg.alphabet).replace('"', "'").replace("\\", "/"), kdesc = kdesc,
                         func = func, v = v, extra = extra, skt = if kk == "c04" { "reference::SK, " } else { "" },
-                        stubs = if cfg.real_stack { "T0 F" } else { "T0 S F" }, real = cfg.real_stack).unwrap();
+                        stubs = if kk == "c10" { "T1 S F" } else if cfg.real_stack { "T0 F" } else { "T0 S F" }, real = cfg.real_stack).unwrap();
                 }
             }
         }
